@@ -6,7 +6,7 @@ variable flows where* (the frame an index was created on is the frame it is appl
 to), not what the variables are called.
 """
 import ast
-from ..common import interp, ours, calls_in, norm, DF, kw
+from ..common import precedes, interp, ours, calls_in, norm, DF, kw
 from ..model import AnalysisError, body_nodes
 from ..facts import facts_at
 from ..dataflow import defs_reaching
@@ -204,7 +204,7 @@ def check(ctx):
         if bro is not None:
             ys = [n for n in body_nodes(md.node) if isinstance(n, ast.Yield) and n.value is not None
                   and pmatch("(__, np.concatenate(__)[_RI])", n.value, {"_RI": bro["_RI"]}) is not None]
-            ok = bool(ys) and ro.lineno < ys[0].lineno
+            ok = bool(ys) and precedes(md, ro, ys[0])
             ctx.ob("OWN-3", md, text(ys[0].value) if ys else "yield colname, np.concatenate(column)[restore]", ys[0] if ys else md.node, ok,
                    "group results are concatenated in group order and permuted back" if ok else
                    "grouped results are yielded without being permuted back to the original row order",
@@ -243,7 +243,7 @@ def check(ctx):
                     sl_ = [n for n in l.body if isinstance(n, ast.Assign) and pmatch(f"{X}[{i}:{j}]", n.value) is not None]
                     adv = [n for n in l.body if pstmt(f"{i} = {j}", n) is not None]
                     nlen = any(pstmt(f"_N = len({X})", n, {"_N": bl["_N"]}) is not None for n in body_nodes(k.node))
-                    ok = bool(sl_) and bool(adv) and nlen and sl_[0].lineno < adv[0].lineno
+                    ok = bool(sl_) and bool(adv) and nlen and precedes(k, sl_[0], adv[0])
         ctx.ob("MPT-3", k, "scan: emit x[i:j] whenever group[j] != group[i] or j == n; then i = j", loops[0] if loops else k.node, ok,
                "every maximal run of equal group ids is emitted exactly once, covering all rows" if ok else
                "the run scan no longer emits every maximal run x[i:j] (rows are lost or merged)", clause="group sizes sum to nrow")
